@@ -271,12 +271,44 @@ class ExprMixin:
                 return r if name == 'in' else (not r)
         return Sym('cmp', name, a, b)
 
+    def dunder_compare(self, opnode, a, b, fr):
+        """user-defined rich comparison of two abstract objects (enabled by the C17 check only): __lt__/__eq__ of the
+        repository class, the other operators as functools.total_ordering derives them"""
+        if not (isinstance(a, ObjV) and isinstance(b, ObjV) and isinstance(a.cls, ClassInfo)):
+            return NotImplemented
+        name = CMPOPS[type(opnode)][0]
+        lt, eq = a.cls.resolve('__lt__'), a.cls.resolve('__eq__')
+
+        def call(f, x, y):
+            if f is None or getattr(self, '_dunder_depth', 0) > 6:
+                return NotImplemented
+            self._dunder_depth = getattr(self, '_dunder_depth', 0) + 1
+            try:
+                return self.call_function(f, x, [y], {}, fr)
+            finally:
+                self._dunder_depth -= 1
+        if name == '<':
+            return call(lt, a, b)
+        if name == '==':
+            return call(eq, a, b)
+        if name == '!=':
+            r = call(eq, a, b)
+            return (not r) if isinstance(r, bool) else NotImplemented
+        if name in ('>', '<=', '>='):
+            l, e = call(lt, a, b), call(eq, a, b)
+            if not isinstance(l, bool) or not isinstance(e, bool):
+                return NotImplemented
+            return {'>': not l and not e, '<=': l or e, '>=': not l}[name]
+        return NotImplemented
+
     def e_Compare(self, node, fr):
         left = self.eval(node.left, fr)
         res = []
         for op, comp in zip(node.ops, node.comparators):
             right = self.eval(comp, fr)
-            r = self.compare(op, left, right)
+            r = self.dunder_compare(op, left, right, fr) if getattr(self, 'dunder_cmp', False) else NotImplemented
+            if r is NotImplemented:
+                r = self.compare(op, left, right)
             if r is False:
                 return False
             if r is not True:
